@@ -67,7 +67,7 @@ func vC35Names(ns []vC35Name) (string, []any) {
 	var d []any
 	s := cqListOf(ns, func(n vC35Name) string {
 		d = append(d, map[string]any{"name": n.name, "publish": n.publish})
-		return cqPair(cqBytes(n.name), cqBool(n.publish))
+		return cqPair(vC35Q(n.name), cqBool(n.publish))
 	})
 	return s, d
 }
@@ -236,6 +236,46 @@ func vC35ValidCode(name string) (code int, panicked bool) {
 	return 9, false
 }
 
+// vC35Q prints a byte string as a Gallina list, run-length encoding long periodic stretches (rp n unit):
+// coqc parses list literals slowly, and the long generated paths are repetitions.
+func vC35Q(s string) string {
+	if len(s) < 96 {
+		return cqBytes(s)
+	}
+	var parts []string
+	lit := 0
+	i := 0
+	for i < len(s) {
+		best, bestP := 0, 0
+		for p := 1; p <= 3 && i+p <= len(s); p++ {
+			j := i + p
+			for j < len(s) && s[j] == s[j-p] {
+				j++
+			}
+			if reps := (j - i) / p; reps >= 16 && reps*p > best {
+				best, bestP = reps*p, p
+			}
+		}
+		if best > 0 {
+			if lit < i {
+				parts = append(parts, cqBytes(s[lit:i]))
+			}
+			parts = append(parts, "rp "+cqZ(int64(best/bestP))+" "+cqBytes(s[i:i+bestP]))
+			i += best
+			lit = i
+		} else {
+			i++
+		}
+	}
+	if lit < len(s) {
+		parts = append(parts, cqBytes(s[lit:]))
+	}
+	if len(parts) == 1 && !strings.HasPrefix(parts[0], "rp ") {
+		return parts[0]
+	}
+	return "(" + strings.Join(parts, " ++ ") + ")"
+}
+
 func TestVerifC35Hls(t *testing.T) {
 	r := vNewRand(vSeed())
 	out := vOpenOut()
@@ -292,7 +332,7 @@ func TestVerifC35Hls(t *testing.T) {
 		} else if !strings.HasPrefix(p, "/") {
 			oc = "panic-unfiltered-path" // the filter stands in front of this on the wire
 		}
-		out.Case(cqApp("CHls", "false", vC35Meth(m), cqBytes(p), cqBool(cookie), obs),
+		out.Case(cqApp("CHls", "false", vC35Meth(m), vC35Q(p), cqBool(cookie), obs),
 			map[string]any{"front": "hls", "mode": "direct", "method": m, "path": p, "cookieCheck": cookie, "status": status,
 				"panic": panicked, "pm_calls": nd}, "hls-direct/"+class+"/"+oc, len(names) > 0)
 	}
@@ -333,7 +373,7 @@ func TestVerifC35Hls(t *testing.T) {
 		}
 		cookie := u.Query().Get("cookieCheck") == "1"
 		desc["path"] = u.Path
-		out.Case(cqApp("CHls", "true", vC35Meth(m), cqBytes(u.Path), cqBool(cookie), cqApp("ORes", cqZ(int64(status)), ns, "0")),
+		out.Case(cqApp("CHls", "true", vC35Meth(m), vC35Q(u.Path), cqBool(cookie), cqApp("ORes", cqZ(int64(status)), ns, "0")),
 			desc, fmt.Sprintf("hls-wire/%s/%d", class, status), len(names) > 0)
 	}
 
@@ -357,7 +397,7 @@ func TestVerifC35Hls(t *testing.T) {
 			}
 		}
 		code, panicked := vC35ValidCode(name)
-		out.Case(cqApp("CValid", cqBytes(name), cqZ(int64(code)), cqBool(panicked)),
+		out.Case(cqApp("CValid", vC35Q(name), cqZ(int64(code)), cqBool(panicked)),
 			map[string]any{"func": "conf.IsValidPathName", "name": name, "err_code": code, "panic": panicked},
 			fmt.Sprintf("valid-name/%d", code), code == 0 || code == 5)
 	}
